@@ -49,7 +49,11 @@ MATCHERS = {}
 
 CUTOFFS = [Fraction(1, 2), Fraction(51, 100), Fraction(55, 100), Fraction(58, 100), Fraction(6, 10), Fraction(2, 3),
            Fraction(7, 10), Fraction(3, 4), Fraction(8, 10), Fraction(9, 10), Fraction(1)]
-BAD_CUTOFFS = [Fraction(49, 100), Fraction(0), Fraction(-1), Fraction(101, 100), Fraction(2)]
+BAD_CUTOFFS = [Fraction(49, 100), Fraction(0), Fraction(-1), Fraction(101, 100), Fraction(2),
+               Fraction(1, 2) - Fraction(1, 2 ** 40), Fraction(1) + Fraction(1, 2 ** 40), Fraction(1000001, 1000000), Fraction(3, 2),
+               Fraction(3), Fraction(10), Fraction(49), Fraction(50), Fraction(101, 2), Fraction(66), Fraction(70), Fraction(199, 2),
+               Fraction(100), Fraction(201, 2), Fraction(101), Fraction(10 ** 6), Fraction(-1, 2), Fraction(-50), Fraction(1, 4),
+               Fraction(499999, 1000000)]
 
 def root_on_branch(t, rng, g):
     """degree-2 root on a random branch of an unrooted tree"""
@@ -198,6 +202,11 @@ def gen(rng, tier):
             pos = rng.choice([0, 1, len(ts) - 1])
             col = list(ts); col[pos] = bad
             case(out, "difftaxa-" + kind_v, col, rng.choice(CUTOFFS))
+    # every out-of-range threshold on a few collections (the valid neighbours 0.5 and 1 are in CUTOFFS)
+    for _ in range({"quick": 2, "thorough": 10, "search": 2}[tier]):
+        ts = collection(rng, g, rng.randint(1, 5), rng.randint(4, 7), rng.choice([0, 0.5]))
+        for bc in BAD_CUTOFFS:
+            case(out, "bad-cutoff", ts, bc)
     # frequencies exactly on the threshold
     exact = [(2, 1), (4, 2), (4, 3), (5, 3), (6, 3), (6, 4), (8, 4), (8, 6), (5, 4), (3, 2)]
     for (n, c) in exact:
@@ -221,3 +230,53 @@ def gen(rng, tier):
     case(out, "witness-pre", [w1, clone(w1), clone(w1)], Fraction(1, 2), pres=[_c08.NONE, [Sym("rename"), "t0", "t1"], [Sym("setname"), "t3", "t2"]])
     case(out, "empty", [], Fraction(1, 2))
     return out
+
+
+# ---------------------------------------------------------------- the command line: gotree compute consensus -f
+# thresholds outside [0.5, 1] must be refused (non-zero exit status, no tree printed); thresholds inside are accepted
+
+def extra(tier, seed, st):
+    import random, shutil, subprocess, os
+    import cli
+    info = {"cli_runs": 0, "evaluations": 0, "distinct_nontrivial": 0}
+    ok, err = cli.build_gotree()
+    if not ok:
+        return [("build", "gotree no longer builds: " + err[-400:], None)], info
+    rng = random.Random(seed + 9)
+    g = Gen(rng)
+    d = cli.scratch("c09-")
+    fails = []
+    def dec(x):
+        # plain decimal text of the rational (all our thresholds have finite decimal expansions or are given to 12 digits)
+        f = Fraction(x)
+        sgn = "-" if f < 0 else ""
+        f = abs(f)
+        ip = f.numerator // f.denominator
+        frac = f - ip
+        digits = ""
+        for _ in range(45):
+            if frac == 0:
+                break
+            frac *= 10
+            dgt = frac.numerator // frac.denominator
+            digits += str(dgt); frac -= dgt
+        return sgn + str(ip) + ("." + digits if digits else "")
+    try:
+        ts = collection(rng, g, 4, 6, 0)
+        f = os.path.join(d, "trees.nw")
+        open(f, "w").write("".join(newick(t) + "\n" for t in ts))
+        for cu, valid in [(c, False) for c in BAD_CUTOFFS] + [(Fraction(1, 2), True), (Fraction(3, 4), True), (Fraction(1), True)]:
+            argv = ["compute", "consensus", "-i", f, "-f", dec(cu)]
+            rc, out, errb = cli.run(argv, d)
+            info["cli_runs"] += 1
+            body = {"argv": argv, "rc": rc, "stdout": out.decode("utf-8", "replace")[-500:], "stderr": errb.decode("utf-8", "replace")[-300:],
+                    "trees": [newick(t) for t in ts]}
+            printed = out.decode("utf-8", "replace").strip()
+            if not valid and (rc == 0 or printed.endswith(";")):
+                fails.append(("cli-consensus", "gotree compute consensus -f %s: threshold outside [0.5,1] accepted (exit %d, output %r)" % (dec(cu), rc, printed[:80]), body))
+            if valid and (rc != 0 or not printed.endswith(";")):
+                fails.append(("cli-consensus", "gotree compute consensus -f %s: valid threshold refused (exit %d)" % (dec(cu), rc), body))
+        info["evaluations"] = info["cli_runs"]
+    finally:
+        shutil.rmtree(d, ignore_errors=True)
+    return fails[:5], info
